@@ -35,7 +35,7 @@ let dec_of_n n = Z.to_string (zt_of_n n)
 let hex_of_z z = Z.format "%x" (zt_of_z z)          (* same as Go's big.Int.Text(16) *)
 let hex_of_n n = Z.format "%x" (zt_of_n n)
 let z_of_hex s = if s = "" then Z0 else
-  if s.[0] = '-' then z_of_zt (Z.neg (Z.of_string_base 16 (String.sub s 1 (String.length s - 1))))
+  if Stdlib.String.get s 0 = '-' then z_of_zt (Z.neg (Z.of_string_base 16 (Stdlib.String.sub s 1 (Stdlib.String.length s - 1))))
   else z_of_zt (Z.of_string_base 16 s)
 
 let rec nat_of_int i : Datatypes.nat = if i <= 0 then Datatypes.O else Datatypes.S (nat_of_int (i - 1))
@@ -66,7 +66,7 @@ let run_driver (model : string -> string) (spec : string -> string -> string) =
   let cases = Sys.argv.(1) and impl = Sys.argv.(2) and mout = Sys.argv.(3) and sout = Sys.argv.(4) in
   let tbl = Hashtbl.create 100000 in
   iter_lines impl (fun id obs -> Hashtbl.replace tbl id obs);
-  let mo = open_out mout and so = open_out sout in
+  let mo = Stdlib.open_out mout and so = Stdlib.open_out sout in
   iter_lines cases (fun id input ->
       let m = try model input with e -> "MODEL-EXCEPTION " ^ Printexc.to_string e in
       Printf.fprintf mo "%s\t%s\n" id m;
